@@ -1018,6 +1018,10 @@ def reset_fd():
     _BRIDGE.clear()
     _STRFV.clear()
     TERM_REG.clear()
+    from . import strings as _S
+
+    _S.ABSTRACT.clear()
+    _S.EQ_REG.clear()
 
 
 def fresh_name(prefix):
